@@ -48,6 +48,23 @@ type C17Case struct {
 	Controller string    `json:"controller"`
 	LEDs       []string  `json:"leds"`
 	Steps      []LedStep `json:"steps"`
+	Before     []string  `json:"before,omitempty"` // other controllers the server lists before the device's keyboard
+	After      []string  `json:"after,omitempty"`  // ... and after it
+}
+
+// otherController: what else an OpenRGB server typically lists next to the keyboard.
+func otherController(kind string, leds []string) OrgbController {
+	switch kind {
+	case "motherboard":
+		return OrgbController{Name: "Fake Motherboard", Type: 0, Location: "I2C: /dev/i2c-0, address 0x40", LEDs: []string{"Aura 1", "Aura 2", "Aura 3"}}
+	case "mouse":
+		return OrgbController{Name: "Fake Mouse", Type: 6, Location: "HID: /dev/hidraw1", LEDs: []string{"Logo", "Wheel"}}
+	case "other-keyboard": // another keyboard, on another event node
+		return OrgbController{Name: "Generic Keyboard", Type: 5, Location: "HID: /dev/hidraw1", LEDs: leds}
+	case "keyboard-no-hidraw":
+		return OrgbController{Name: "Laptop Keyboard", Type: 5, Location: "ACPI: embedded controller", LEDs: leds}
+	}
+	return OrgbController{Name: "Fake DRAM", Type: 1, Location: "I2C: /dev/i2c-1, address 0x58", LEDs: []string{"DRAM 1"}}
 }
 
 // ledDevice is one real device.Device with its LED loop connected to the fake server.
@@ -426,14 +443,31 @@ func allRed(colors [][3]byte) bool {
 
 func checkC17(c C17Case) (nontrivial bool, v *Violation) {
 	fixture := os.Getenv("VERIF_HIDRAW_FIXTURE")
-	if err := BuildHidrawFixture(fixture, map[int]string{0: "event5"}); err != nil {
+	if err := BuildHidrawFixture(fixture, map[int]string{0: "event5", 1: "event9"}); err != nil {
 		return false, violation("C17", "harness", "", "fixture: %v", err)
 	}
-	srv, err := NewOrgbServer([]OrgbController{{Name: c.Controller, Type: 5, Location: "HID: /dev/hidraw0", LEDs: c.LEDs}})
+	var ctrls []OrgbController
+	for _, k := range c.Before {
+		ctrls = append(ctrls, otherController(k, c.LEDs))
+	}
+	ci := len(ctrls) // the index the server lists the device's keyboard under
+	ctrls = append(ctrls, OrgbController{Name: c.Controller, Type: 5, Location: "HID: /dev/hidraw0", LEDs: c.LEDs})
+	for _, k := range c.After {
+		ctrls = append(ctrls, otherController(k, c.LEDs))
+	}
+	srv, err := NewOrgbServer(ctrls)
 	if err != nil {
 		return false, violation("C17", "harness", "", "fake OpenRGB server: %v", err)
 	}
 	defer srv.Close()
+	strays := func() string {
+		for j := range ctrls {
+			if j != ci && srv.Last(j) != nil {
+				return fmt.Sprintf("controller %d (%s, listed as %v + the keyboard + %v) received LED frames of the device whose keyboard is controller %d", j, ctrls[j].Name, c.Before, c.After, ci)
+			}
+		}
+		return ""
+	}
 	cfg, text, pv := parseDesc("C17", c.D)
 	if pv != nil {
 		return false, pv
@@ -461,7 +495,7 @@ func checkC17(c C17Case) (nontrivial bool, v *Violation) {
 	}
 	// wait for the LED loop to come up
 	deadline := time.Now().Add(12 * time.Second)
-	for srv.Last(0) == nil && time.Now().Before(deadline) {
+	for srv.Last(ci) == nil && strays() == "" && time.Now().Before(deadline) {
 		select {
 		case p := <-ld.done:
 			ld.returned = true
@@ -470,7 +504,11 @@ func checkC17(c C17Case) (nontrivial bool, v *Violation) {
 		}
 		srv.WaitFrame(50 * time.Millisecond)
 	}
-	if srv.Last(0) == nil {
+	if st := strays(); st != "" {
+		finish()
+		return true, violation("C17", "frames-to-wrong-controller", "", "%s", st)
+	}
+	if srv.Last(ci) == nil {
 		finish()
 		return false, violation("C17", "harness", "no-frames", "the LED loop sent no frame within 12 s (connections %d, requests %d)", srv.Connections, srv.Requests)
 	}
@@ -494,7 +532,7 @@ func checkC17(c C17Case) (nontrivial bool, v *Violation) {
 			matched := false
 			lastWhy := "no frame arrived"
 			for time.Now().Before(deadline) {
-				fr := srv.Since(0, seq0)
+				fr := srv.Since(ci, seq0)
 				if len(fr) >= 3 { // frames 1-2 after the fence may have been computed before it
 					f := fr[len(fr)-1]
 					if len(f.Colors) != len(c.LEDs) {
@@ -545,16 +583,20 @@ func checkC17(c C17Case) (nontrivial bool, v *Violation) {
 	deadline = time.Now().Add(3 * time.Second)
 	red := false
 	for time.Now().Before(deadline) {
-		if f := srv.Last(0); f != nil && allRed(f.Colors) {
+		if f := srv.Last(ci); f != nil && allRed(f.Colors) {
 			red = true
 			break
 		}
 		srv.WaitFrame(20 * time.Millisecond)
 	}
 	if !red {
-		f := srv.Last(0)
+		f := srv.Last(ci)
 		return true, violation("C17", "not-red-after-disconnect", "", "processing ended but the last LED frame is not all red: %v", clipColors(f))
 	}
+	if st := strays(); st != "" {
+		return true, violation("C17", "frames-to-wrong-controller", "", "%s", st)
+	}
+	classifyIf(len(c.Before) > 0, "other controllers listed before the keyboard")
 	missing := false
 	for _, a := range c.D.Actions {
 		found := false
@@ -672,6 +714,11 @@ func genC17(t *rapid.T) C17Case {
 		layout[i] = leds[k]
 	}
 	c := C17Case{D: d, LEDs: layout, Controller: rapid.SampledFrom([]string{"Generic Keyboard", "Generic Keyboard", "HyperX Alloy Elite 2 (HP)"}).Draw(t, "controller")}
+	otherKinds := []string{"motherboard", "dram", "mouse", "other-keyboard", "keyboard-no-hidraw"}
+	if rapid.IntRange(0, 2).Draw(t, "hasOthers") == 0 {
+		c.Before = rapid.SliceOfN(rapid.SampledFrom(otherKinds), 0, 3).Draw(t, "before")
+		c.After = rapid.SliceOfN(rapid.SampledFrom(otherKinds), 0, 2).Draw(t, "after")
+	}
 	if c.Controller == "HyperX Alloy Elite 2 (HP)" && rapid.Bool().Draw(t, "withStrip") {
 		for i := 1; i <= 18; i++ {
 			c.LEDs = append(c.LEDs, fmt.Sprintf("RGB Strip %d", i))
